@@ -36,6 +36,25 @@ _sched("C08", "Stop honours its contract",
        "every interleaving (within the deviation bound) of Stop with 2-3 producers (one making two calls), wedged or ctx-honouring stores, buffered and abandoned unbuffered done channels, and Stop contexts {Background, deadline as a free timer event, already expired, a custom Context implementation}; oracles: monotone ErrEngineStopped, completeness when Stop returns nil, return within the quiescent closure of the deadline event, no CreateFile/Update started after Stop returned its deadline error, every buffered waiter holds exactly one answer",
        "virtual time: 'roughly by the deadline' is decided as 'without any further timer'; the horizon equals the deadline")
 
+_sched("C09", "bounded backpressure",
+       "store stalled for ever at each call kind, 2-3 producers offering more single-row batches than the configuration bound; after every acceptance the number of accepted-but-unanswered batches is compared with IngestBufferSize + 4 flushes' worth; at quiescence not everything may have been accepted and cancelled callers must return",
+       "bound = IngestBufferSize + 4 x (batches one flush request can carry); a bound that is a function of the configuration is what the property asks for, not the tightest one")
+_sched("C10", "buffered rows flush without Flush",
+       "grid of limit settings x batch shapes x MaxBufferedTime x inter-batch gaps under virtual time: when the reference counters reach a limit every accepted batch must be answered without any timer; otherwise by accept time + MaxBufferedTime + one ticker period, with neither Flush nor Stop called",
+       "virtual time advances only at quiescence in this family (scheduling latency is not modelled); the small sequential driver makes the schedule space tiny, the enumeration is over configurations")
+_sched("C14", "queries concurrent with flushes and merges",
+       "ingest+flush, Merge and a draining Query as concurrent tasks over the shipped MemoryMetaStore (harness DataStore, POSIX-like and object-store-like) and over FileSystemDataStore as both stores with every filesystem call a scheduling point; a query that ends with Err()==nil must return every row acknowledged before it started exactly once and nothing foreign",
+       "delay-bounded (every departure from the canonical task order costs 1): bound 2 quick / 3 thorough; filesystem state is one external object in the state key")
+_sched("C20", "the Results cursor reaches a correct terminal state",
+       "consumer (Next), closer (Close once or twice) and canceller as concurrent tasks around a query over 2 files x 2 blocks (one block with more than one delivery batch), with at most one injected OpenFile/Read/iterator failure, on never-started, started and stopped engines; terminal-state rules are evaluated relative to the first terminal-deciding call in the global observation log",
+       "quick: delay bound 2; thorough: preemption bound 1 (delay bound 3 for the large fixture)")
+_sched("C21", "queries release every resource",
+       "same scenarios as C20; at the instant the terminal Next or Close returns every handle must be closed exactly once, never shared or used after close, the MetaStore iterator returned and no engine goroutine of the query alive; a follow-up query whose first MaxQueryConcurrency reads wait for each other must complete",
+       "as C20")
+_sched("C22", "bounded query I/O, no starvation",
+       "2-3 concurrent queries with DataStore reads as two-point operations and a gauge checked at every read entry; a query whose consumer never reads (330 matching rows, buffer full, workers parked on delivery) must not keep another query from completing at MaxQueryConcurrency 1 and 2",
+       "delay bound 2 (1 for the 330-row fixture); thorough adds preemption bound 1")
+
 COMMON_SEQ = [
     "bounded alphabets: verdicts hold for the enumerated rows, conditions, trees, layouts and configurations only",
     "the reference walker (encoding/json token stream) is the trusted statement of the documented search semantics; rows with empty object keys are decided by the unpruned-layout differential only",
@@ -67,8 +86,9 @@ _seq("C24", "pruning is effective",
 
 _seq("C03", "faithful, independent rows",
      "every decodable row of the row alphabet on every compression and block split is paired by reflect.DeepEqual with json.Unmarshal(json.Marshal(row)); retained rows are compared with deep copies after other results were overwritten and later queries reused the scan buffers",
-     "sequential part (buffer reuse across queries of one goroutine); the concurrent pool-reuse scenario is part of the scheduler engine when present",
-     "bounded-exhaustive input enumeration against encoding/json as the reference decoder")
+     "sequential part: buffer reuse across queries of one goroutine; concurrent part (scheduler engine): two queries with sync.Pool as a deterministic LIFO pool whose Get/Put are scheduling points, delay bound 2/3",
+     "bounded-exhaustive input enumeration against encoding/json as the reference decoder, plus controlled-scheduler exploration of concurrent pool reuse",
+     extra_parts=[{"engine": "sched", "family": "C03"}], budget={"quick": 160, "thorough": 1500})
 _seq("C04", "prefilters never prune a satisfying block",
      "every block population of one or two boundary values x every operator/operand combination, decided by exact math/big arithmetic at function, metadata, flush and merge level; AND/OR trees over minmax and partition conditions",
      "NaN excluded (documented as not indexed); ±Inf only at function level (not JSON-marshalable)",
